@@ -171,6 +171,26 @@ def parse (b : Bytes) : Out (Ipv6 × Inner) := do
   let (hs, cur, inner) ← parseLoop (c.size + 1) c ⟨p.nextHeader, p.payloadLength, false, []⟩
   pure ({ p with headers := hs, finalNext := cur }, inner)
 
+/-- the `while (is_extension_header(current_header))` loop of `IPv6::extract_metadata` (here `NO_NEXT_HEADER` counts as a
+    header too): every access is a checked stream read, each round consumes at least 8 bytes -/
+def metadataLoop : Nat → Cursor → Nat → Nat → Out Nat
+  | 0, _, _, _ => .fault "IPv6::extract_metadata: out of fuel"
+  | fuel + 1, c, cur, headerSize =>
+    if !isExtensionHeader cur then .ok headerSize else do
+      let (nxt, c) ← c.readU8                                   -- current_header = stream.read<uint8_t>()
+      let (l, c) ← c.readU8
+      let extSize := (l + 1) * 8
+      let c ← c.skip (extSize - 2)                              -- stream.skip(payload_size)
+      metadataLoop fuel c nxt ((headerSize + extSize) % 4294967296)
+
+/-- `IPv6::extract_metadata(buffer, total_sz)`: the header size (40 + extension headers) or `malformed_packet`; the raw
+    cast `(const ipv6_header*)buffer` reads byte 6 after `total_sz >= 40` has been checked -/
+def extractMetadata (b : Bytes) : Out Nat :=
+  if b.length < 40 then .throw .malformedPacket else do
+    let nh ← rd "IPv6::extract_metadata header->next_header" b 6
+    let c ← (Cursor.ofBytes b).skip 40
+    metadataLoop (c.size + 1) c nh.toNat 40
+
 /-- `IPv6::search_header`: first header of that type -/
 def searchHeader (p : Ipv6) (id : Nat) : Option ExtHdr := p.headers.find? (·.option == id)
 
